@@ -67,6 +67,9 @@ func verifB64(s string) (string, error) {
 
 func verifEnc(s string) string { return base64.StdEncoding.EncodeToString([]byte(s)) }
 
+// verifMaxLine mirrors the reader's scanner limit (kept separate so the hook builds against any tree).
+const verifMaxLine = 10 * 1024 * 1024
+
 type verifTime []int64 // [unix seconds, nanoseconds]; nil = unparsable
 
 func verifT(t time.Time) verifTime { return verifTime{t.Unix(), int64(t.Nanosecond())} }
@@ -362,7 +365,7 @@ func verifHandle(req verifReq) (interface{}, error) {
 			trimmed := bytes.TrimSpace(tok)
 			var ev Event
 			switch {
-			case len(tok)+1 > maxEventLineBytes && len(tok) >= maxEventLineBytes:
+			case len(tok) >= verifMaxLine:
 				classes = append(classes, "huge")
 			case len(trimmed) == 0:
 				classes = append(classes, "blank")
